@@ -2184,7 +2184,7 @@ bool CMRdblmatIsBinary(CMR* cmr, CMR_DBLMAT* matrix, double epsilon, CMR_SUBMAT*
 {
   assert(cmr);
   CMRdbgConsistencyAssert( CMRdblmatConsistency(matrix) );
-  assert(psubmatrix || !*psubmatrix);
+  assert(!psubmatrix || !*psubmatrix);
 
   for (size_t row = 0; row < matrix->numRows; ++row)
   {
@@ -2210,7 +2210,7 @@ bool CMRintmatIsBinary(CMR* cmr, CMR_INTMAT* matrix, CMR_SUBMAT** psubmatrix)
 {
   assert(cmr);
   CMRdbgConsistencyAssert( CMRintmatConsistency(matrix) );
-  assert(psubmatrix || !*psubmatrix);
+  assert(!psubmatrix || !*psubmatrix);
 
   for (size_t row = 0; row < matrix->numRows; ++row)
   {
